@@ -92,33 +92,37 @@ func GCFacts(rc *RC, files func(string) bool) (map[string][]string, map[string]s
 			continue
 		}
 		type acc struct {
-			lits map[string]bool
-			n    int
+			lits   map[string]bool
+			n      int
+			callee string
+			node   *ir.Node
+			idx    int
 		}
-		sites := map[string]*acc{}
+		sites := map[string]*acc{} // node pointer + callee + index in statement
+		var order []*acc
 		for _, p := range paths {
 			lits := map[string]bool{}
 			for _, g := range p.Guards {
 				literals(g, lits)
 			}
-			count := map[string]int{}
 			for _, st := range p.Steps {
 				if st.Kind != "call" && st.Kind != "let" && st.Kind != "tuple" && st.Kind != "ret" && st.Kind != "store" {
 					continue
 				}
+				seen := map[string]int{}
 				for _, callee := range calleesIn(st) {
-					count[callee]++
-					key := fmt.Sprintf("%s@%s#%d", fi.Key, callee, count[callee])
-					a := sites[key]
+					seen[callee]++
+					id := fmt.Sprintf("%p|%s|%d", st, callee, seen[callee])
+					a := sites[id]
 					if a == nil {
-						a = &acc{lits: map[string]bool{}}
+						a = &acc{lits: map[string]bool{}, callee: callee, node: st, idx: seen[callee]}
 						for l := range lits {
 							if stableLiteral(l) {
 								a.lits[l] = true
 							}
 						}
-						sites[key] = a
-						pos[key] = rc.P.Pos(st.Pos)
+						sites[id] = a
+						order = append(order, a)
 					} else {
 						for l := range a.lits {
 							if !lits[l] {
@@ -130,13 +134,24 @@ func GCFacts(rc *RC, files func(string) bool) (map[string][]string, map[string]s
 				}
 			}
 		}
-		for k, a := range sites {
+		// ordinal of a site among the sites of its callee: by source position
+		sort.SliceStable(order, func(i, j int) bool {
+			if order[i].node.Pos != order[j].node.Pos {
+				return order[i].node.Pos < order[j].node.Pos
+			}
+			return order[i].idx < order[j].idx
+		})
+		count := map[string]int{}
+		for _, a := range order {
+			count[a.callee]++
+			key := fmt.Sprintf("%s@%s#%d", fi.Key, a.callee, count[a.callee])
 			var ls []string
 			for l := range a.lits {
 				ls = append(ls, l)
 			}
 			sort.Strings(ls)
-			out[k] = ls
+			out[key] = ls
+			pos[key] = rc.P.Pos(a.node.Pos)
 		}
 	}
 	return out, pos, skipped
@@ -189,30 +204,88 @@ func GC(rc *RC, files func(string) bool, floor int) {
 	gcLoad()
 	facts, pos, skipped := GCFacts(rc, files)
 	rc.S.Count("GC.functions-skipped-too-many-paths", skipped)
-	var keys []string
+	// group by function@callee: the sites of the reviewed tree must be matched, one to one, by
+	// current sites that establish at least the recorded facts (a new call of the same callee -
+	// a new branch - is unconstrained and does not shift the identity of the old ones)
+	group := func(k string) string { return k[:strings.LastIndex(k, "#")] }
+	cur := map[string][]string{}
 	for k := range facts {
-		keys = append(keys, k)
+		cur[group(k)] = append(cur[group(k)], k)
 	}
-	sort.Strings(keys)
-	for _, k := range keys {
-		ref, ok := gcRef[k]
-		if !ok || len(ref) == 0 {
-			continue // new or unguarded site: LC / LG decide those
+	refs := map[string][]string{}
+	for k, v := range gcRef {
+		if len(v) > 0 {
+			refs[group(k)] = append(refs[group(k)], k)
 		}
-		have := map[string]bool{}
-		for _, l := range facts[k] {
-			have[l] = true
+	}
+	var groups []string
+	for g := range refs {
+		if _, ok := cur[g]; ok {
+			groups = append(groups, g)
 		}
-		var lost []string
-		for _, r := range ref {
-			if !have[r] {
-				lost = append(lost, r)
+	}
+	sort.Strings(groups)
+	for _, g := range groups {
+		rk := refs[g]
+		sort.Slice(rk, func(i, j int) bool {
+			return len(gcRef[rk[i]]) > len(gcRef[rk[j]]) || len(gcRef[rk[i]]) == len(gcRef[rk[j]]) && rk[i] < rk[j]
+		})
+		ck := cur[g]
+		sort.Strings(ck)
+		used := map[string]bool{}
+		covers := func(c, r string) ([]string, bool) {
+			have := map[string]bool{}
+			for _, l := range facts[c] {
+				have[l] = true
 			}
+			var lost []string
+			for _, l := range gcRef[r] {
+				if !have[l] {
+					lost = append(lost, l)
+				}
+			}
+			return lost, len(lost) == 0
 		}
-		if len(lost) == 0 {
-			rc.S.Ok("GC", k, pos[k], fmt.Sprintf("%d recorded fact(s) still established: %s", len(ref), strings.Join(ref, " ; ")))
-			continue
+		for _, r := range rk {
+			matched := ""
+			// prefer the site with the same ordinal
+			if _, ok := facts[r]; ok && !used[r] {
+				if _, ok := covers(r, r); ok {
+					matched = r
+				}
+			}
+			if matched == "" {
+				for _, c := range ck {
+					if used[c] {
+						continue
+					}
+					if _, ok := covers(c, r); ok {
+						matched = c
+						break
+					}
+				}
+			}
+			if matched != "" {
+				used[matched] = true
+				rc.S.Ok("GC", r, pos[matched], fmt.Sprintf("%d recorded fact(s) still established: %s", len(gcRef[r]), strings.Join(gcRef[r], " ; ")))
+				continue
+			}
+			// report against the unused site that loses least
+			best, bestLost := "", []string(nil)
+			for _, c := range ck {
+				if used[c] {
+					continue
+				}
+				lost, _ := covers(c, r)
+				if best == "" || len(lost) < len(bestLost) {
+					best, bestLost = c, lost
+				}
+			}
+			if best == "" {
+				continue // the call site is gone (code removed): nothing to guard
+			}
+			used[best] = true
+			rc.S.Viol("GC", r, pos[best], fmt.Sprintf("the call is no longer guarded by %s (facts established on every path to it on the reviewed tree)", strings.Join(bestLost, " ; "))).Sig = "lost " + strings.Join(bestLost, " ; ")
 		}
-		rc.S.Viol("GC", k, pos[k], fmt.Sprintf("the call is no longer guarded by %s (facts established on every path to it on the reviewed tree)", strings.Join(lost, " ; "))).Sig = "lost " + strings.Join(lost, " ; ")
 	}
 }
